@@ -78,8 +78,13 @@ func ruleR03_2(c *Check) {
 	}
 	var k keyer
 	for _, o := range allStores(w, next) {
-		root := o.SiteFn.Root().Name
-		if _, ok := exc[root]; ok {
+		excepted := false
+		for _, root := range w.rootsVia(o.SiteFn) {
+			if _, ok := exc[root]; ok {
+				excepted = true
+			}
+		}
+		if excepted {
 			continue
 		}
 		// outside initialisation the counter only moves forward: a timestamp handed out once is never
